@@ -215,8 +215,8 @@ hoist_as = "%s"''' % (f, n, idx, c))
   after = "offsets.push(total_size);"
   text = "lemma_offsets(slice@, offsets@);"
   [[item.proof]]
-  before = "%s::verify(&slice[offsets[0]..offsets[1]], compatible)?;"
-  text = "lemma_monotone(slice@, offsets@); assert(offsets@.len() >= %d); assert(offsets@[offsets@.len() - 1] == slice@.len()); %s assert(offsets@[%d] <= offsets@[offsets@.len() - 1]);"''' % (c, reader(payload[0][1]), len(payload) + 1, ' '.join('assert(offsets@[%d] <= offsets@[%d]);' % (q, q + 1) for q in range(len(payload))), len(payload)))
+  after_if = "if offsets.windows(2).any(|i| i[0] > i[1])"
+  text = "lemma_monotone(slice@, offsets@); assert(offsets@.len() >= %d); assert(offsets@[offsets@.len() - 1] == slice@.len()); %s assert(offsets@[%d] <= offsets@[offsets@.len() - 1]);"''' % (c, len(payload) + 1, ' '.join('assert(offsets@[%d] <= offsets@[%d]);' % (q, q + 1) for q in range(len(payload))), len(payload)))
         elif k == 'dynvec':
             items.append(head + ABSTR_VE + '''
   [[item.abstract]]
